@@ -484,6 +484,43 @@ func buildPlans(thorough bool) []plan {
 		}
 	}
 
+	// 4g. the unresponsive but connected peer: once the server ends the connection (every server-initiated ending:
+	// a frame that makes it close, an init the application refuses, the application's Close()) the client answers
+	// nothing, sends nothing and keeps the TCP connection open; teardown must complete by itself within a bound
+	for _, p := range protos {
+		st := startType(p)
+		init := msg("init", 0, "none", "")
+		subA := msg(st, 1, "doc", "sub")
+		triggers := []Label{msg("init", 0, "reject", ""), msg("terminate", 0, "none", "")}
+		if p == protoTWS {
+			triggers = append(triggers, Label{Kind: lMalformed}, msg(st, 3, "junk", ""))
+		}
+		for _, pre := range [][]Label{{init}, {init, subA}, {init, subA, msg(st, 2, "doc", "sub"), {Kind: lEmit, Src: 0}, {Kind: lSrcEnd, Src: 1}}} {
+			for _, tr := range triggers {
+				ls := append(append([]Label(nil), pre...), tr)
+				sc := Script{Proto: p, Labels: ls, Mute: true, End: "client-close", Barrier: true}
+				plans = append(plans, plan{mode: "mute", make: func(*rng.R) Script { return sc }})
+			}
+			sc := Script{Proto: p, Labels: append([]Label(nil), pre...), Mute: true, End: "app-close", Barrier: true}
+			plans = append(plans, plan{mode: "mute", make: func(*rng.R) Script { return sc }})
+		}
+		// before any init
+		sc := Script{Proto: p, Labels: []Label{msg("init", 0, "reject", "")}, Mute: true, End: "client-close"}
+		plans = append(plans, plan{mode: "mute", make: func(*rng.R) Script { return sc }})
+	}
+	// 4h. a slow reader: the client pipelines queries with 100 KB answers and reads nothing for 2.5 s, then reads
+	// everything; nothing may be lost (slow: beside the worker pool)
+	nSlowQ := []int{220}
+	if thorough {
+		nSlowQ = []int{150, 220, 400}
+	}
+	for _, p := range protos {
+		for _, n := range nSlowQ {
+			sc := Script{Proto: p, Labels: []Label{msg("init", 0, "none", ""), msg(startType(p), 1, "doc", "sub")}, Slow: n, End: "client-close", Barrier: true}
+			plans = append(plans, plan{mode: "slow", slow: true, make: func(*rng.R) Script { return sc }})
+		}
+	}
+
 	// 5. keep-alive periods: the conversation waits 15 s (+ margin) per tick label, so these few run
 	// beside the worker pool from the start and are handed out last
 	for _, p := range protos {
